@@ -944,6 +944,7 @@ static void run_scenario(World*& W, const std::string& scen, const std::string& 
     fclose(fo);
 }
 
+#ifndef POMRUN_NO_MAIN
 int main(int argc, char* argv[]) {
     // keep the original stdout for the protocol, send pomerol's chatter to /dev/null
     int proto = dup(1);
@@ -983,3 +984,4 @@ int main(int argc, char* argv[]) {
     delete W;
     return 0;
 }
+#endif
